@@ -15,9 +15,14 @@ Inductive op :=
 | OGet (x y : Z) (expect : str)
 | OIn (x y : Z) (expect : bool).
 
+(* a line of the rendered text with its runs of spaces abbreviated (only to keep the case files small) *)
+Inductive seg := Sp (n : nat) | Rn (l : str).
+Definition expand (l : list seg) : str :=
+  flat_map (fun s => match s with Sp n => repeat 32%N n | Rn l => l end) l.
+
 Inductive case :=
 | COps (w h : Z) (ops : list op) (std : bool) (out : option str)     (* None: the implementation panicked *)
-| CRender (std : bool) (lines : list str) (labels : list str) (label_runes : list rune).
+| CRender (std : bool) (lines : list (list seg)) (labels : list str) (label_runes : list rune).
 
 Definition run_op (st : res (grid * bool)) (o : op) : res (grid * bool) :=
   do s <- st;
@@ -44,7 +49,8 @@ Definition check_case (c : case) : list N :=
       | Ok (ok, o), Some o' => flag (ok && str_eqb o o') 1
       | _, _ => [1%N]
       end
-  | CRender std lines labels label_runes =>
+  | CRender std segs labels label_runes =>
+      let lines := map expand segs in
       flag (negb std || ascii_outside_labels_b lines label_runes) 10
       ++ flag (labels_visible_b lines labels) 11
   end.
